@@ -16,8 +16,10 @@ from collections import Counter
 from pathlib import Path
 
 VERIF = Path(__file__).resolve().parent.parent
-EVIDENCE = VERIF / "evidence"
-REPLAYS = VERIF / "replays"
+# Sensitivity runs (planted mutants, seeded changes) write their evidence and replays elsewhere so that
+# the committed evidence always describes the unchanged tree.
+EVIDENCE = Path(os.environ.get("VERIF_EVIDENCE_DIR") or VERIF / "evidence")
+REPLAYS = Path(os.environ.get("VERIF_REPLAY_DIR") or VERIF / "replays")
 KNOWN_FILE = VERIF / "known_findings.json"
 NWORKERS = int(os.environ.get("VERIF_WORKERS", "16"))
 
@@ -268,7 +270,7 @@ def pmap(fn, arglist, workers=None):
         out = [_call(j) for j in jobs]
     else:
         ctx = multiprocessing.get_context("fork")
-        with ctx.Pool(min(workers, len(jobs)), maxtasksperchild=None) as pool:
+        with ctx.Pool(min(workers, len(jobs)), maxtasksperchild=1) as pool:  # fresh fork per job: no state leaks between jobs
             out = pool.map(_call, jobs, chunksize=1)
     res = []
     for status, val in out:
@@ -307,7 +309,7 @@ class Ctx:
 
 def write_evidence(pid, tier, seed, level, stats: Stats, rule, wall, extra=None,
                    assumptions=None, exhaustive=None):
-    EVIDENCE.mkdir(exist_ok=True)
+    EVIDENCE.mkdir(parents=True, exist_ok=True)
     cov = {
         "evaluations": int(stats.evaluations),
         "distinct_nontrivial": len(stats.nontrivial),
